@@ -31,6 +31,14 @@ Correspondence:
               keys the loader validates together, and in random combinations per table; configurations the loader takes are
               started through `nauyaca serve --config` and through ServerConfig.from_toml + start_server and probed like
               `startup`, then once more with the running listener's security level lowered to 0.  Oracle only.
+* `policy`    the start-up paths in a process whose OpenSSL POLICY does not refuse old versions (a child process whose OPENSSL_CONF
+              is the "legacy interop" file MinProtocol = TLSv1 / CipherString = DEFAULT:@SECLEVEL=0, written by the harness): every
+              way the server is brought up ({start_server(...), `nauyaca serve --config`, ServerConfig.from_toml + start_server,
+              context builder + protocol classes wired by hand} x {auto-generated, supplied PEM, supplied DER, one file of each}
+              certificate x client-certificate request x certificate_auth shape), alone, several different ones in one process,
+              and the same one restarted many times in one process (a stopped server's objects are garbage by then).  The listener is
+              not touched: permissive clients capped at TLS 1.0 / 1.1 simply try; a bare context without minimum version in the same
+              child shows that the old versions ARE negotiable there (harness/sim/tls_policy.py).  Oracle only.
 * `cli`       every leaf command of the command-line interface, enumerated from the click tree of the working
               tree (a command the harness has no recipe for gets arguments synthesised from its declared
               parameters and runs in a process of its own), against the scripted peer capped at TLS 1.0/1.1, with
@@ -46,7 +54,7 @@ import sys
 
 from .. import core
 from ..core import Family
-from ..sim import tls_live, tls_paths, tls_peer, tls_startup
+from ..sim import tls_live, tls_paths, tls_peer, tls_policy, tls_startup
 from ..sim.tls_peer import VERS
 
 ID = "C20"
@@ -66,7 +74,8 @@ TECHNIQUE = ("Lean 4 theorems over a table generated from the real context objec
              "pump model (Pre/Dead states, induction over arbitrary event lists); differential testing of the real contexts / the real "
              "TLSServerProtocol against the model with permissive memory-BIO peers and control contexts; loopback probes of both backends; "
              "exhaustive small-scope enumeration of start-up configurations (entry point x certificate kind x require_client_cert x certificate_auth shape), "
-             "of the configuration-file settings found in the source x TOML value types (singles, pairwise, random combinations) "
+             "of the configuration-file settings found in the source x TOML value types (singles, pairwise, random combinations), "
+             "of the start-up paths x certificate file encodings x restarts inside one process under a permissive OpenSSL policy file (child processes) "
              "and of the CLI's commands (enumerated from the source) against scripted loopback peers, judged by the property's oracle")
 ASSUMPTIONS = [
     "OpenSSL negotiates the highest protocol version enabled on both sides, or none (Misc.negotiate); not verified, exercised on every run",
@@ -77,6 +86,7 @@ ASSUMPTIONS = [
     "start-up configurations (family startup) and command-line commands (family cli) are exercised behaviourally over loopback sockets and judged by the oracle alone; the Lean table covers the context-construction paths, not the glue that decides which listener a configuration gets",
     "certificates below the security level are RSA-1024 keys and SHA-1 signatures (made with pyOpenSSL's legacy X509 API, since `cryptography` refuses to sign with SHA-1); a server that refuses to start with them satisfies the property",
     "family settings: which values a setting takes is learnt by calling the working tree's own loader (ServerConfig.from_toml); settings the harness needs for itself ([server] host/port/document_root/certfile/keyfile/require_client_cert, [rate_limit] enabled, [certificate_auth] paths) are not varied; the `-level0` verdicts lower the security level of the RUNNING listener's context (set_ciphers / set_cipher_list with ALL:@SECLEVEL=0), which cannot enable a protocol version the context's version range excludes",
+    "family policy: the machine whose OpenSSL policy leaves the protocol floor to the application is simulated with OPENSSL_CONF (MinProtocol = TLSv1, CipherString = DEFAULT:@SECLEVEL=0) in a child process per case; both OpenSSL libraries in use (the system's behind `ssl`, the cryptography wheel's behind PyOpenSSL) read that file; a case counts only if, in the same child, a bare PyOpenSSL server context without minimum version completes TLS 1.0 (otherwise the case is a harness error, not a pass); stdlib listeners carry Python's own cipher string (with a security level that overrides the file) and are therefore probed a second time after `set_ciphers('ALL:@SECLEVEL=0')` on the running listener's context; whether the address of a dropped context is reused by a later one within the 20 lives of a restart case is up to the allocator (observed in about nine of ten such cases)",
     "`serve` is the one command of the CLI that is not run as a client (it is the server: family startup); every other leaf command found in the source is run against the old-version peer",
 ]
 
@@ -1156,6 +1166,208 @@ class Settings(Startup):
         return f"{what} ({kinds}) -> {obs['listener']}; old clients {'/'.join(old)}; modern {'/'.join(modern)}"
 
 # ------------------------------------------------------------------------------------------------
+# family 5c: the start-up paths on a machine whose OpenSSL policy leaves the protocol floor to the application
+# ------------------------------------------------------------------------------------------------
+# (certificate kind, encoding of the supplied files)
+POLICY_CERTS = [("auto", "pem"), ("rsa2048", "pem"), ("ec256", "pem"), ("rsa2048", "der"), ("ec256", "der"), ("rsa2048", "der-cert"), ("ec256", "der-key")]
+POLICY_AUTH = ["no-cert-auth", "requiring-rule", "fingerprints-only", "exempting-rule-only"]
+POLICY_LIVES = 20      # lives of a restart case
+
+
+def _life_text(lf: dict) -> str:
+    cert = "no certificate configured (auto-generated)"
+    if lf["cert"] != "auto":
+        enc = {"pem": "PEM", "der": "DER", "der-cert": "DER (certificate) + PEM (key)", "der-key": "PEM (certificate) + DER (key)"}[lf.get("enc", "pem")]
+        cert = f"supplied {lf['cert']} certificate/key as {enc} files"
+    if lf["entry"] == "manual":
+        if lf["backend"] == "std":
+            how = ("_create_self_signed_context" if lf["cert"] == "auto" else "create_server_context") + "(...) + create_server(GeminiServerProtocol, ssl=ctx) by hand"
+        else:
+            how = ("_create_self_signed_pyopenssl_context" if lf["cert"] == "auto" else "create_pyopenssl_server_context") + "(...) + TLSServerProtocol by hand"
+        return f"{how}, {cert}, request_client_cert={lf['rcc']}"
+    how = {"api": "start_server(config, ...)", "cli": "`nauyaca serve --config <toml>`", "toml": "start_server(ServerConfig.from_toml(<toml>), ...)"}[lf["entry"]]
+    auth = "no certificate_auth" if lf.get("auth") is None else "certificate_auth rules " + json.dumps(lf["auth"])
+    return f"{how}, {cert}, require_client_cert={lf['rcc']}, {auth}"
+
+
+def _life_config(lf: dict) -> dict:
+    return {k: v for k, v in lf.items() if k != "probes"}
+
+
+class Policy(Family):
+    """OpenSSL 3's default policy refuses TLS 1.0 / 1.1 by itself, which MASKS a floor nauyaca loses on some start-up path.  The
+    floor matters on machines whose policy file is the "legacy interop" recipe; a child process per case lives on such a machine
+    (OPENSSL_CONF, written by the harness) and brings the server up, one life after the other in that one process, in every
+    way it can be brought up; permissive clients capped at TLS 1.0 / 1.1 then try each listener exactly as it was built.  A
+    server that refuses to start (e.g. DER files) satisfies the property; one that starts must refuse them."""
+    realtime = True     # runs on the wall clock (sockets, threads, a child process): a failure is re-run once before it counts (core.run_family)
+
+    name = "policy"
+    quick_n = 56
+    thorough_n = 640
+
+    # -- cases -------------------------------------------------------------------------------------
+    def _probes(self, rng: random.Random, many: bool = False) -> list[dict]:
+        olds = [(1, 1), (2, 2), (1, 2), (0, 2)]
+        ps = [{"kind": "tls", "lo": 1, "hi": 1, "cc": rng.random() < 0.4}]
+        for lo, hi in (olds[1:] if many else [rng.choice(olds[1:])]):
+            ps.append({"kind": "tls", "lo": lo, "hi": hi, "cc": rng.random() < 0.5})
+        ps.append({"kind": "tls", "lo": rng.choice([1, 3]), "hi": rng.choice([3, 4, 4]), "cc": rng.random() < 0.5})   # the modern control
+        if rng.random() < 0.5:
+            ps.append({"kind": "plain", "chunks": [rng.choice(PLAIN_LINES[:4]).hex()]})
+        rng.shuffle(ps)      # the very first connection of a listener is an old-version one in some lives, a modern one in others
+        return ps
+
+    def _configs(self) -> list[dict]:
+        """every way the server can be brought up (without probes)"""
+        out = []
+        for cert, enc in POLICY_CERTS:
+            for rcc in (False, True):
+                for entry in ("api", "cli", "toml"):
+                    for shape in POLICY_AUTH:
+                        if shape != "no-cert-auth" and (entry == "toml") != (shape == "fingerprints-only") and not (entry == "api" and shape == "requiring-rule"):
+                            continue     # (the certificate_auth shapes are spread over the entries: each shape with two of them at least)
+                        out.append({"entry": entry, "cert": cert, "enc": enc, "rcc": rcc, "auth": AUTH_SHAPES[shape]})
+                for backend in ("std", "pyo"):
+                    out.append({"entry": "manual", "backend": backend, "cert": cert, "enc": enc, "rcc": rcc})
+        return out
+
+    def _restarts(self) -> list[dict]:
+        """configurations that are restarted POLICY_LIVES times in one process"""
+        out = []
+        for entry in tls_policy.ENTRIES:
+            for cert, enc in POLICY_CERTS[:3]:
+                for rcc in (True, False):
+                    c = {"entry": entry, "cert": cert, "enc": enc, "rcc": rcc}
+                    if entry == "manual":
+                        c["backend"] = "pyo" if rcc else "std"
+                    else:
+                        c["auth"] = None
+                    out.append(c)
+        out.sort(key=lambda c: (0 if c["rcc"] else 1, 0 if c["cert"] != "ec256" else 1))     # the client-certificate backend first
+        return out
+
+    def gen(self, rng: random.Random, n: int):
+        many = n >= 40       # thorough tier
+        count = 0
+        configs = self._configs()
+        random.Random(20).shuffle(configs)
+        # the boundary first: what OpenSSL's default policy would mask - certificate files that are not PEM, client certificates
+        configs.sort(key=lambda c: 0 if c["enc"] != "pem" and c["rcc"] else 1 if c["rcc"] else 2)
+        k = 2 if many else 4
+        tours = [configs[i:i + k] for i in range(0, len(configs), k)]
+        plan = [("restart", [c] * POLICY_LIVES) for c in self._restarts()[: (24 if many else 10)]]
+        # a tour of different configurations in one process / the same configuration restarted in one process; laid out so that the
+        # (longer) restart cases are spread evenly over the shards of an enumeration that hands out every k-th element
+        k8 = max(1, self.shard[1])
+        merged = plan[:k8] + [("tour", t) for t in tours]
+        for j, item in enumerate(plan[k8:]):
+            merged.insert(min(len(merged), k8 + j * (k8 + 1) + 3), item)
+        for shape, cfgs in self.share(merged):
+            yield {"shape": shape, "lives": [dict(c, probes=self._probes(rng, many and shape == "tour")) for c in cfgs]}
+            count += 1
+        # random histories of one process: configuration changes, certificate renewals, backends coming and going
+        while count < n:
+            base = rng.choice([c for c in configs if c["enc"] == "pem"] if rng.random() < 0.7 else configs)
+            lives = []
+            for _ in range(rng.choice([6, 10, 14, POLICY_LIVES])):
+                r = rng.random()
+                if r < 0.5:
+                    c = dict(base)
+                elif r < 0.75:
+                    c = dict(base, rcc=not base["rcc"])
+                    if c["entry"] == "manual":
+                        c["backend"] = rng.choice(["std", "pyo"])
+                else:
+                    c = dict(rng.choice(configs))
+                lives.append(dict(c, probes=self._probes(rng)))
+            yield {"shape": "history", "lives": lives}
+            count += 1
+
+    # -- running one case ---------------------------------------------------------------------------
+    def impl(self, case):
+        return tls_policy.run({"lives": case["lives"]})
+
+    # -- the property, on what was observed --------------------------------------------------------
+    def oracle(self, case, obs):
+        n = len(case["lives"])
+        for i, (lf, o) in enumerate(zip(case["lives"], obs["lives"])):
+            if not o["started"]:
+                continue     # refusing to serve is no service
+            who = (f"the {'PyOpenSSL' if o['listener'] == 'pyo' else 'stdlib'} listener of " + (f"server life {i + 1} of {n} in ONE process, " if n > 1 else "the server ")
+                   + f"started by [{_life_text(lf)}]")
+            where = f"{who}, in a process whose OpenSSL policy file (OPENSSL_CONF) says [{tls_policy.POLICY_TEXT}],"
+            before = ""
+            if i:
+                same = sum(1 for x in case["lives"][:i] if _life_config(x) == _life_config(lf))
+                before = f"; lives before it in the same process: {i}" + (f" ({same} of them with this very configuration)" if same else "") + \
+                    f", each started, probed, stopped and dropped: {json.dumps([_life_config(x) for x in case['lives'][:i]][-3:])}{' (the last three)' if i > 3 else ''}"
+            ctrl = f"; in the same process a bare PyOpenSSL server context without minimum version negotiates {obs['control'].get('pyo')} with a TLS 1.0 client, one with a TLS 1.2 floor {obs['control'].get('pyo_floor')}"
+            cert = "auto" if lf["cert"] == "auto" else lf.get("enc", "pem")
+            tag = f"{lf['entry']}-{o['listener']}-{cert}"
+            rounds = [("", lf["probes"], o["probes"])]
+            if o.get("level0"):
+                rounds.append(("-level0", [p for p in lf["probes"] if p["kind"] == "tls" and p["hi"] <= 2], o["level0"]))
+            for suffix, ps, os_ in rounds:
+                lowered = ("; before this handshake the cipher string of the running listener's SSLContext was replaced by ALL:@SECLEVEL=0 (Python writes a security level of its "
+                           "own into every context; the protocol-version range is then the only barrier)") if suffix else ""
+                for p, r in zip(ps, os_):
+                    if p["kind"] == "plain":
+                        sent = b"".join(bytes.fromhex(c) for c in p["chunks"])[:40]
+                        if r["h"]:
+                            return (f"policy-plaintext-reached-handler-{tag}", f"{where} ran a handler {r['h']} time(s) for {sent!r} sent to its port without TLS{before}")
+                        if r["gemini_like"]:
+                            return (f"policy-plaintext-got-response-{tag}", f"{where} answered {sent!r} sent without TLS with Gemini response bytes {bytes.fromhex(r['out_head'])!r}{before}")
+                        if r["out_len"] and not r["out_tls"]:
+                            return (f"policy-plaintext-got-nontls-bytes-{tag}", f"{where} answered {sent!r} sent without TLS with bytes that are not TLS records: {r['out_head']}{before}")
+                        continue
+                    if r["version"] in OLD_TLS:
+                        return (f"policy-old-tls-{tag}{suffix}",
+                                f"{r['version']} handshake completed (client offering {VERS[p['lo']]}..{VERS[p['hi']]}{' with a client certificate' if p.get('cc') else ''}; response read: {r['resp']!r}) "
+                                f"by {who}; the process runs under OPENSSL_CONF [{tls_policy.POLICY_TEXT}]{lowered}{before}{ctrl}")
+                    if r["resp"] and r["version"] not in ("TLSv1.2", "TLSv1.3"):
+                        return (f"policy-response-without-modern-tls-{tag}{suffix}", f"{where}: a response {r['resp']!r} was read on a connection whose TLS version is {r['version']}{before}")
+        return None
+
+    def same(self, expected, obs):
+        return True
+
+    def shrink(self, case, bad):
+        """the lives after the failing one go; then, if it still fails, everything before it (a defect of one start-up path needs
+        no history; one that needs the history keeps it - which earlier life matters is the allocator's business, not the input's)"""
+        try:
+            obs = self.impl(case)
+        except Exception:  # noqa: BLE001
+            return case
+        v = self.oracle(case, obs)
+        if v is None:
+            return case
+        idx = next((i for i in range(len(case["lives"])) if self.oracle({"lives": case["lives"][:i + 1]}, {"control": obs["control"], "lives": obs["lives"][:i + 1]}) is not None), None)
+        if idx is None:
+            return case
+        best = case
+        cut = dict(case, lives=case["lives"][:idx + 1])
+        if len(cut["lives"]) < len(case["lives"]) and bad(cut):
+            best = cut
+        alone = dict(case, lives=[case["lives"][idx]])
+        if len(best["lives"]) > 1 and bad(alone):
+            best = alone
+        return best
+
+    def key(self, case, obs):
+        started = [(lf, o) for lf, o in zip(case["lives"], obs["lives"]) if o["started"]]
+        refused = len(case["lives"]) - len(started)
+        kinds = "+".join(sorted({o["listener"] for _lf, o in started})) or "none"
+        encs = "+".join(sorted({("auto" if lf["cert"] == "auto" else lf.get("enc", "pem")) for lf in case["lives"]}))
+        old = sorted({str(r["version"] or "refused") for lf, o in started for p, r in zip(lf["probes"], o["probes"]) if p["kind"] == "tls" and p["hi"] <= 2})
+        modern = sorted({str(r["version"] or "refused") for lf, o in started for p, r in zip(lf["probes"], o["probes"]) if p["kind"] == "tls" and p["hi"] > 2})
+        lives = "1 life" if len(case["lives"]) == 1 else "2..9 lives" if len(case["lives"]) < 10 else "10+ lives"
+        enc = "PEM/auto only" if encs in ("auto", "pem", "auto+pem") else "DER among them"
+        return (f"{case.get('shape', '?')} ({lives} in one process; certificates {enc}) -> listeners {kinds}{', some refused to start' if refused else ''}; old clients {'/'.join(old) or '-'}; "
+                f"modern {'/'.join(modern) or '-'}; control without floor {obs['control'].get('pyo')}")
+
+
+# ------------------------------------------------------------------------------------------------
 # family 6: every command of the command-line interface against servers that offer less than TLS 1.2
 # ------------------------------------------------------------------------------------------------
 # how the harness drives the commands it knows to open a connection: variant -> (argv template, row of
@@ -1379,7 +1591,7 @@ class CliCommands(Family):
         return f"{what}: {hist}" if len(case["steps"]) == 1 or all(s["hi"] <= 2 for s in case["steps"]) else f"{what}: history with old and modern steps"
 
 
-FAMILIES = [Versions(), PlaintextModel(), Live(), ClientHistories(), Startup(), Settings(), CliCommands()]
+FAMILIES = [Versions(), PlaintextModel(), Live(), ClientHistories(), Startup(), Settings(), Policy(), CliCommands()]
 
 if __name__ == "__main__":
     if "--write-tls" in sys.argv:
